@@ -4,6 +4,8 @@ import (
 	"fmt"
 	"go/ast"
 	"go/token"
+	"go/types"
+	"regexp"
 	"strings"
 
 	"golang.org/x/tools/go/ssa"
@@ -29,11 +31,11 @@ func runC02(c *Ctx) {
 		return
 	}
 	// ---- C02.1 wrapper identity
-	want := map[string]string{
-		"fnProvider":    "field:github.com/mazrean/kessoku.fnProvider.fn(param:p)",
-		"asyncProvider": "invoke (github.com/mazrean/kessoku.funcProvider[T]).Fn(field:github.com/mazrean/kessoku.asyncProvider.fn(param:p))",
-		"bindProvider":  "invoke (github.com/mazrean/kessoku.funcProvider[T]).Fn(field:github.com/mazrean/kessoku.bindProvider.fn(param:p))",
-	}
+	// every type that declares Fn returns one of its own fields (the wrapped function) or Fn() of one of its own fields
+	// (the wrapped provider); wrapper types may get that method by embedding such a type
+	reField := regexp.MustCompile(`^field:` + regexp.QuoteMeta(modPath) + `\.(\w+)\.(\w+)\(param:\w+\)$`)
+	reDeleg := regexp.MustCompile(`^invoke \(` + regexp.QuoteMeta(modPath) + `\.funcProvider\[\w+\]\)\.Fn\(field:` + regexp.QuoteMeta(modPath) + `\.(\w+)\.(\w+)\(param:\w+\)\)$`)
+	wrappedField := map[string]string{} // declaring type -> key of the field that holds what Fn hands out
 	nFn := 0
 	for _, m := range root.Members {
 		t, ok := m.(*ssa.Type)
@@ -48,30 +50,59 @@ func runC02(c *Ctx) {
 		c.seen(fnName(fn))
 		s := newSym(L, map[string]bool{})
 		got := strings.Join(s.evalFn(fn, 0), " | ")
-		if w, ok := want[t.Name()]; ok {
-			c.check(got == w, "C02.1", t.Name()+".Fn", L.pos(fn.Pos()), t.Name()+".Fn() returns exactly the wrapped function", got)
-		} else if t.Name() == "structProvider" {
+		if t.Name() == "structProvider" {
 			// table exception: Struct's Fn returns a dummy; premise: generated code never calls Fn on a struct provider (C02.3)
 			c.ok("C02.1", "structProvider.Fn is a placeholder that generated code never calls [table exception, premise checked by C02.3]", got)
-		} else {
-			c.fail("C02.1", t.Name()+".Fn:unknown-wrapper", L.pos(fn.Pos()), "a provider wrapper that the checker has no identity rule for", got)
+			continue
+		}
+		m1, m2 := reField.FindStringSubmatch(got), reDeleg.FindStringSubmatch(got)
+		switch {
+		case m1 != nil && m1[1] == t.Name():
+			wrappedField[t.Name()] = modPath + "." + m1[1] + "." + m1[2]
+			c.ok("C02.1", t.Name()+".Fn() returns exactly the wrapped function", got)
+		case m2 != nil && m2[1] == t.Name():
+			wrappedField[t.Name()] = modPath + "." + m2[1] + "." + m2[2]
+			c.ok("C02.1", t.Name()+".Fn() returns exactly the wrapped provider's function", got)
+		default:
+			c.fail("C02.1", t.Name()+".Fn", L.pos(fn.Pos()), t.Name()+".Fn() does not return exactly the wrapped function (a field of the receiver, or Fn() of a field of the receiver)", got)
 		}
 	}
-	c.floor("C02.1", "Fn methods of provider wrappers", nFn, 4)
-	for _, ctor := range []struct{ name, typ string }{{"Provide", "fnProvider"}, {"Async", "asyncProvider"}, {"Bind", "bindProvider"}} {
-		fn := L.fn(modPath, ctor.name)
+	c.floor("C02.1", "Fn methods of provider wrappers", nFn, 3)
+	for _, ctor := range []string{"Provide", "Async", "Bind"} {
+		fn := L.fn(modPath, ctor)
 		if fn == nil {
-			c.undecided("C02.1", ctor.name, "constructor not found")
+			c.undecided("C02.1", ctor, "constructor not found")
 			continue
 		}
 		c.seen(fnName(fn))
-		ok := false
-		for _, st := range storesToField([]*ssa.Function{fn}, "github.com/mazrean/kessoku."+ctor.typ+".fn") {
-			if p, isP := st.Val.(*ssa.Parameter); isP && p == fn.Params[0] {
-				ok = true
+		// the type whose Fn the returned wrapper answers with (its own, or the one of an embedded type)
+		decl := ""
+		if fn.Signature.Results().Len() == 1 {
+			rt := fn.Signature.Results().At(0).Type()
+			if sel := types.NewMethodSet(rt).Lookup(root.Pkg, "Fn"); sel != nil {
+				if f, isF := sel.Obj().(*types.Func); isF {
+					if recv := f.Type().(*types.Signature).Recv(); recv != nil {
+						rtp := recv.Type()
+						if pt, isP := rtp.(*types.Pointer); isP {
+							rtp = pt.Elem()
+						}
+						if nt, isN := rtp.(*types.Named); isN {
+							decl = nt.Obj().Name()
+						}
+					}
+				}
 			}
 		}
-		c.check(ok, "C02.1", ctor.name+":stores-argument", L.pos(fn.Pos()), ctor.name+"(fn) wraps exactly its argument", "store of parameter fn into the wrapper's fn field")
+		key := wrappedField[decl]
+		ok := false
+		if key != "" {
+			for _, st := range storesToField([]*ssa.Function{fn}, key) {
+				if p, isP := st.Val.(*ssa.Parameter); isP && p == fn.Params[0] {
+					ok = true
+				}
+			}
+		}
+		c.check(ok, "C02.1", ctor+":stores-argument", L.pos(fn.Pos()), ctor+"(fn) wraps exactly its argument", "store of parameter fn into "+key+", the field that "+decl+".Fn hands out")
 	}
 	if fn := L.fn(modPath, "Value"); fn != nil {
 		c.seen(fnName(fn))
